@@ -893,10 +893,11 @@ impl W {
                     Some(x) if x != first => {
                         mons.push(("c01.timeout".into(), "result-not-reported".into(), format!("task {t} ended with {} but the first update is `{first}`", res.name())));
                     }
-                    None if first.ends_with(&format!(":{t}")) || first.contains(&format!(":{t}:")) => {
-                        if !first.starts_with("run") && !first.starts_with("rej") && !first.starts_with("en") {
-                            mons.push(("c01.timeout".into(), "canceled-reported".into(), format!("task {t} ended canceled but `{first}` was reported")));
-                        }
+                    // a canceled task reports nothing about itself (`fail:t:launch` can only be a second copy of the
+                    // id waiting in the backlog, i.e. a ComputeTasks outside the contract, and is not an outcome of
+                    // the run that ended)
+                    None if first == format!("fin:{t}") || first == format!("fail:{t}:error") || first == format!("fail:{t}:timeout") => {
+                        mons.push(("c01.timeout".into(), "canceled-reported".into(), format!("task {t} ended canceled but `{first}` was reported")));
                     }
                     _ => {}
                 }
